@@ -71,10 +71,20 @@ MatchV(h, ov, sv, s, fuel) ==
            [] ov.t = "slice" -> MatchV(h, ov.c, sv.c, MatchV(h, ov.b, sv.b, MatchV(h, ov.a, sv.a, s, fuel - 1), fuel - 1), fuel - 1)
            [] ov.t = "float" -> IF ov.dec = sv.dec THEN s ELSE Fail(s, "float differs")
            [] OTHER -> IF ov = sv THEN s ELSE Fail(s, "value differs (" \o ov.t \o ")")
+\* no object or closure identity inside: can be compared by plain equality
+RECURSIVE Flat(_)
+Flat(v) == CASE v.t \in {"list", "dict", "lambda", "opaque"} -> FALSE
+             [] v.t = "tuple" -> \A i \in 1..Len(v.items) : Flat(v.items[i])
+             [] OTHER -> TRUE
 MatchSeq(h, os, ss, i, s, fuel) ==
-    IF ~s.ok \/ i > Len(os) THEN s ELSE MatchSeq(h, os, ss, i + 1, MatchV(h, os[i], ss[i], s, fuel), fuel)
+    IF ~s.ok \/ i > Len(os) THEN s
+    ELSE IF i = 1 /\ Len(os) > 64 /\ \A j \in 1..Len(os) : Flat(os[j])      \* long flat sequences: no element-wise recursion
+    THEN (IF \A j \in 1..Len(os) : os[j] = ss[j] THEN s ELSE Fail(s, "element of a long sequence differs"))
+    ELSE MatchSeq(h, os, ss, i + 1, MatchV(h, os[i], ss[i], s, fuel), fuel)
 MatchPairs(h, ops, sps, i, s, fuel) ==
     IF ~s.ok \/ i > Len(ops) THEN s
+    ELSE IF i = 1 /\ Len(ops) > 64 /\ \A j \in 1..Len(ops) : Flat(ops[j][2])
+    THEN (IF \A j \in 1..Len(ops) : ops[j][1] = sps[j][1] /\ ops[j][2] = sps[j][2] THEN s ELSE Fail(s, "entry of a long dict differs"))
     ELSE IF ops[i][1] # sps[i][1] THEN Fail(s, "dict key differs")
     ELSE MatchPairs(h, ops, sps, i + 1, MatchV(h, ops[i][2], sps[i][2], s, fuel), fuel)
 MatchRuns(h, runs, its, ri, pos, s, fuel) ==
@@ -195,8 +205,18 @@ HostOf(c) == c.host
 EmptyMap == [x \in {} |-> 0]
 IdMap(n) == [x \in 1..n |-> x]
 
+\* long uniform host containers travel run-length encoded / as bulk records
+RECURSIVE ExpandRuns(_, _)
+ExpandRuns(runs, i) == IF i > Len(runs) THEN <<>> ELSE [j \in 1..runs[i].c |-> runs[i].v] \o ExpandRuns(runs, i + 1)
+RECURSIVE BulkKey(_)
+BulkKey(i) == <<107>> \o (IF i < 10 THEN <<48 + i>> ELSE Tail(BulkKey(i \div 10)) \o <<48 + (i % 10)>>)
+ExpandObj(o) == IF "runs" \in DOMAIN o THEN [t |-> "list", items |-> ExpandRuns(o.runs, 1)]
+                ELSE IF "kbulk" \in DOMAIN o THEN [t |-> "dict", items |-> [i \in 1..o.kbulk |-> <<BulkKey(i - 1), o.v>>]]
+                ELSE o
+ExpandHeap(hp) == [a \in 1..Len(hp) |-> ExpandObj(hp[a])]
+
 Init == /\ tid \in 1..Len(Cases)
-        /\ m = InitMachine(Cases[tid].heap0, Cases[tid].names0, <<>>)
+        /\ m = InitMachine(ExpandHeap(Cases[tid].heap0), Cases[tid].names0, <<>>, IF "bound" \in DOMAIN Cases[tid] THEN Cases[tid].bound ELSE Cap)
         /\ l = 1
         /\ st = [ok |-> TRUE, why |-> "", a |-> IdMap(Len(Cases[tid].heap0)), l |-> EmptyMap]
         /\ verdict = [s |-> "run"]
